@@ -23,7 +23,7 @@ fi
 cp $BASEKEY /tmp/seed_base_tests.log
 (cd $B/utils && go test -count=1 $PKGS 2>&1 | grep -- "^--- FAIL\|^    --- FAIL\|^FAIL\|^ok" | grep -v "$FLAKY" | sed 's/ ([0-9.]*s)//; s/\t[0-9.]*s$//' | sort > /tmp/seed_mut_tests.log)
 # "unchanged" = no test that passes on the untouched copy fails on the changed one (FAIL lines of the changed copy are a subset)
-if [ -z "$(grep FAIL /tmp/seed_mut_tests.log | sort | comm -13 <(grep FAIL /tmp/seed_base_tests.log | sort) -)" ]; then SAME=true; else SAME=false; fi
+if [ -z "$(grep -- '--- FAIL' /tmp/seed_mut_tests.log | sort | comm -13 <(grep -- '--- FAIL' /tmp/seed_base_tests.log | sort) -)" ]; then SAME=true; else SAME=false; fi
 GOVC_REPO=$B /verif/bin/govc -prop $PROP -noreplay > /verif/seeded/$ID/check.log 2>&1; CK=$?
 rm -rf $A $B
 echo "seed=$ID prop=$PROP demo_without_rc=$RW demo_with_rc=$RC existing_tests_same=$SAME check_rc=$CK"
